@@ -6,10 +6,13 @@ import (
 	"fmt"
 	"os"
 	"path/filepath"
+	"runtime"
 	"strings"
 	"sync"
+	"sync/atomic"
 	"testing"
 	"testing/synctest"
+	"time"
 
 	"ssvharness/internal/common"
 )
@@ -165,6 +168,14 @@ func runRace(t *testing.T, c Case, emit func(Result)) (res Result) {
 				for _, line := range c.Ops {
 					im.do(line)
 				}
+				if rep == 0 {
+					pre, err := im.observe()
+					if err != nil {
+						res.HarnessErr = err.Error()
+						return
+					}
+					res.Events = []Event{{Line: "prefix", Res: "ok", Obs: pre}}
+				}
 				ress := make([]string, len(c.Race))
 				start := make(chan struct{})
 				var wg sync.WaitGroup
@@ -209,9 +220,10 @@ func runRace(t *testing.T, c Case, emit func(Result)) (res Result) {
 }
 
 // runHammer: one race template repeated many times on one manager with lookup-level observation
-// (no handshakes, no saver): Race[0] and Race[1] are released together, then the statement's
-// "accepted set == listed set" is checked at quiescence, then the users the template touches are removed.
-// Template "reload-loop": Race[0] is reloaded in a loop over two alternating files while Race[1..] run in a loop.
+// (no handshakes, no saver). The raced operations run on persistent goroutines released by a spinning
+// barrier (so that they really start together), with a small varying stagger; after each repetition the
+// statement's "accepted set == listed set" is checked at quiescence, then the clean-up lines (Ops) run.
+// Template "reload-loop": LoadFromFile over two alternating (large) files in a loop while Race runs in a loop.
 func runHammer(c Case) (res Result) {
 	im, err := newImpl(c.PSKLen, c.TCP, c.UDP, c.Init, false)
 	if err != nil {
@@ -235,11 +247,14 @@ func runHammer(c Case) (res Result) {
 	}
 	if len(c.Ops) > 0 && c.Ops[0] == "reload-loop" {
 		docs := []Doc{Doc(c.Ops[1]), Doc(c.Ops[2])}
+		var stop atomic.Bool
 		var wg sync.WaitGroup
 		wg.Add(2)
+		deadline := time.Now().Add(time.Duration(c.Reps) * time.Millisecond) // Reps = run time in ms
 		go func() {
 			defer wg.Done()
-			for i := 0; i < c.Reps; i++ {
+			defer stop.Store(true)
+			for i := 0; time.Now().Before(deadline); i++ {
 				tmp := filepath.Join(im.dir, "new.json")
 				os.WriteFile(tmp, docs[i%2].text(), 0o644)
 				os.Rename(tmp, im.path) // never truncate a file the manager may have mapped
@@ -248,7 +263,7 @@ func runHammer(c Case) (res Result) {
 		}()
 		go func() {
 			defer wg.Done()
-			for i := 0; i < c.Reps; i++ {
+			for !stop.Load() {
 				for _, line := range c.Race {
 					im.do(line)
 				}
@@ -258,19 +273,48 @@ func runHammer(c Case) (res Result) {
 		check(c.Reps)
 		return
 	}
-	for rep := 0; rep < c.Reps; rep++ {
-		start := make(chan struct{})
-		var wg sync.WaitGroup
-		for _, line := range c.Race {
-			wg.Add(1)
-			go func() {
-				defer wg.Done()
-				<-start
+	var gen, ready, arrived atomic.Int64
+	var wg sync.WaitGroup
+	wake := make([]chan struct{}, len(c.Race))
+	for i, line := range c.Race {
+		wake[i] = make(chan struct{}, 1)
+		wg.Add(1)
+		go func() {
+			defer wg.Done()
+			for rep := int64(1); rep <= int64(c.Reps); rep++ {
+				if _, ok := <-wake[i]; !ok {
+					return
+				}
+				ready.Add(1)
+				for gen.Load() < rep { // spin only between "everybody is awake" and the release
+				}
+				for k := int64(0); k < (rep%64)*int64(i)*4; k++ { // small varying stagger
+					_ = gen.Load()
+				}
 				im.do(line)
-			}()
+				arrived.Add(1)
+			}
+		}()
+	}
+	defer func() {
+		for _, w := range wake {
+			close(w)
 		}
-		close(start)
 		wg.Wait()
+	}()
+	for rep := 1; rep <= c.Reps; rep++ {
+		arrived.Store(0)
+		ready.Store(0)
+		for _, w := range wake {
+			w <- struct{}{}
+		}
+		for ready.Load() < int64(len(c.Race)) {
+			runtime.Gosched()
+		}
+		gen.Store(int64(rep))
+		for arrived.Load() < int64(len(c.Race)) {
+			runtime.Gosched()
+		}
 		if !check(rep) {
 			return
 		}
